@@ -314,7 +314,11 @@ def check(report, tier, only=None):
            # a refusal by the sender's own codec is confined and prompt: do_rpc returns the error instead of waiting for a response
            ('sender_refusal_is_prompt', lambda rep: rpcpath.ob_do_rpc(rep, PROP)),
            # a refusal by the receiver's codec (an over-long frame is a decode error of that stream) stays confined to that RPC
-           ('receiver_refusal_is_confined', lambda rep: __import__('props.C12', fromlist=['x']).ob_handle_no_connection_ops(rep, PROP))]
+           ('receiver_refusal_is_confined', lambda rep: __import__('props.C12', fromlist=['x']).ob_handle_no_connection_ops(rep, PROP)),
+           # both frames of a message are read with the one configured codec (no frame gets a limit of its own)
+           ('read_request_structure', lambda rep: C07_e2.ob_read(rep, 'request')), ('read_response_structure', lambda rep: C07_e2.ob_read(rep, 'response')),
+           # a refused message costs the caller that RPC, not the connection: nothing but Network::disconnect removes a peer by id
+           ('removal_entry_points', lambda rep: __import__('props.C04', fromlist=['x']).ob_removal_entry_points(rep))]
     for n, f in obs:
         if only and not any(s in n for s in only):
             continue
